@@ -4,9 +4,19 @@ from props import runtime
 PID = "C13"
 
 
+def _cluster_part(rep, tier, seed):
+    from props import cluster
+    cluster.judge(rep, PID, tier, 0, args={"scenarios": True, "seed": 0}, what="directed schedules (multi-height, future cache)")
+    cluster.judge(rep, PID, tier, seed, what="random adversarial schedules over several heights")
+
+
 def run(tier, seed):
-    return runtime.simple_check(PID, tier, seed)
+    return runtime.simple_check(PID, tier, seed, extra=_cluster_part)
 
 
 def replay(path, seed):
+    import json
+    if json.load(open(path)).get("kind") == "cluster-run":
+        from props import cluster
+        return cluster.simple_replay(PID, path, seed)
     return runtime.simple_replay(PID, path, seed)
